@@ -4,7 +4,7 @@
 
    Fragment proved here ([frag], [class_frag], [canon]): Number/Integer/Float/String/Boolean with any
    constraints, Enum over literals, Enum over an enum class by name and by value (members of falsy value included),
-   Array/Deque/Set of the fragment, Tuple (positional or homogeneous) of plain scalars, Map from plain scalars to
+   Array/Deque/Set of the fragment, Tuple (positional, or homogeneous of any length) of plain scalars, Map from plain scalars to
    the fragment, nested structures to any depth,
    AnyOf/Optional over ARBITRARY options holding a value of an option of the fragment that distinguishes the
    options (every earlier option rejects the value on the way out and its document on the way in, with whatever
@@ -166,7 +166,7 @@ Definition ex_ens : enums :=
 Definition colorv : field := FEnumCls (s2p "ColorV") [(s2p "RED", PNum (NInt 1)); (s2p "BLUE", PStr (s2p "b"))].
 Definition priov : field := FEnumCls (s2p "PrioV") [(s2p "NONE", PNum (NInt 0)); (s2p "LOW", PNum (NInt 1))].
 Definition int_ : field := FNumber KInteger SAny no_numc.
-(* an option that rejects a shorter list with IndexError (not TypeError/ValueError), then the option of the value *)
+(* an option that rejects a shorter list (ValueError: fewer elements than positional items), then the option of the value *)
 Definition tup_or_arr : field := FAnyOf [FTuple [int_; FBoolean] false; FSeqEach SeqList int_ no_sizec false; FNone].
 Definition fdecl_ (n : string) (f : field) (d : option pyval) : fdecl :=
   {| fd_name := s2p n; fd_field := f; fd_immutable := false; fd_default := d |}.
@@ -218,9 +218,10 @@ Example C05_nonvacuous :
                 (PStr (s2p "b"), PBool false) ]) /\
   (forall j, serialize (fun _ _ => true) ex_env ex_ens 2 false ex_x = Ok j ->
              deserialize (fun _ _ => true) ex_env ex_ens ex_fl 2 None (s2p "Outer") j = Ok ex_x) /\
-  (* the earlier option of field t rejects the document [0] with IndexError, not with TypeError/ValueError *)
+  (* the earlier option of field t rejects the document [0]: shorter than its positional items (ValueError; it was
+     the IndexError of value[1] before F9 was repaired) *)
   deser_val (fun _ _ => true) ex_env ex_ens (deser_struct (fun _ _ => true) ex_env ex_ens ex_fl 1) true false
-            (FTuple [int_; FBoolean] false) (PList [PNum (NInt 0)]) = Raise IndexError.
+            (FTuple [int_; FBoolean] false) (PList [PNum (NInt 0)]) = Raise ValueError.
 Proof.
   split; [|split; [|split]].
   - cbn [ex_x]. unfold canon. exists cls_Outer.
@@ -257,7 +258,7 @@ Proof.
           repeat constructor; try (vm_compute; reflexivity); discriminate. }
         split; [vm_compute; reflexivity|].
         intros j Hj. vm_compute in Hj. inversion Hj; subst j. cbn [firstn]. apply Forall_cons; [|apply Forall_nil].
-        intro ku. exists IndexError. split; [destruct ku; vm_compute; reflexivity | reflexivity].
+        intro ku. exists ValueError. split; [destruct ku; vm_compute; reflexivity | reflexivity].
       * cbn [firstn]. apply Forall_cons; [|apply Forall_nil]. exists TypeError. split; vm_compute; reflexivity.
     + (* Set[Integer] holding {0, 1} *)
       eexists. split; [reflexivity|]. split; [|reflexivity].
